@@ -276,6 +276,13 @@ def main(tier):
         if np.abs(rec["C"]).max(initial=0) > 0:
             nontriv.add(rec["id"])
         for name, V in rec["views"]:
+            if V.shape == rec["C"].shape and name == "tosparse":
+                # 'exactly the matrix': a stored non-zero of the operator must not be dropped (whatever its size)
+                drop = (V == 0) & (np.abs(rec["C"]) > 1e-9 * np.abs(rec["C"]).max(initial=0))    # (below that: rounding noise of FFT-based kernels)
+                if drop.any():
+                    i, j = map(int, np.argwhere(drop)[0])
+                    R.violation("tosparse() of %s %s drops the non-zero entry (%d,%d) = %s of the operator's matrix" % (rec["what"], rec["params"], i, j, rec["C"][i, j]),
+                                dict(base, view="tosparse", row=i, col=j, observed="0", expected=str(rec["C"][i, j])))
             if V.shape != rec["C"].shape:
                 R.violation("%s() of %s %s has shape %s, operator columns have %s" % (name, rec["what"], rec["params"], V.shape, rec["C"].shape),
                             dict(base, view=name))
